@@ -572,7 +572,30 @@ def _c08_fixed():
     return out
 
 
-PLANS["C08"]["fixed"] = _c08_fixed() + _c08_watch_end()
+def _c08_no_default_route():
+    """The stop arrives while the interface does not advertise itself as a default router (configured lifetime 0,
+    forwarding off from the start, forwarding switched off a moment before): the final RA on termination is owed all the
+    same (it is what hosts that learned the route earlier act on), and none on reload."""
+    out = []
+    for base in (DEF["cfg"], SRV["cfg"]):
+        for variant in ("life0", "nofwd", "flipoff", "flipoff-late"):
+            for term in (True, False):
+                cfgv = dict(base)
+                steps = [{"op": "adv", "to": 1000}, {"op": "rs", "src": "unspec"}, {"op": "adv", "to": 5000}]
+                if variant == "life0":
+                    cfgv["life"] = 0
+                elif variant == "nofwd":
+                    cfgv["fwd"] = False
+                elif variant == "flipoff":
+                    steps += [{"op": "flip", "val": False}, {"op": "rs", "src": "fe80::a1"}, {"op": "adv", "to": 6000}]
+                else:
+                    steps += [{"op": "rs", "src": "fe80::a1"}, {"op": "adv", "to": 6000}, {"op": "flip", "val": False}]
+                steps += [{"op": "cancel", "term": term}, {"op": "adv", "to": 9000}]
+                out.append({"cfg": cfgv, "steps": steps, "src": "stop-without-default-route-" + variant})
+    return out
+
+
+PLANS["C08"]["fixed"] = _c08_fixed() + _c08_watch_end() + _c08_no_default_route()
 PLANS["C10"]["fixed"] = _c10_fixed()
 PLANS["C10"]["ifis"] = ("vf0", "vf1")
 PLANS["C07"]["fixed"] = concurrent_write_failures() + solicitation_floods()
